@@ -17,8 +17,11 @@ ALGO_OPS = {"interp", "phi", "avg", "tisapprox", "tarith", "misc"}
 def run(prop, tier, seed, judged, rule, module="ManifTrace", subsample=None, extra_results=None, exhaustive=False):
     rep = vlib.Report(prop, tier, seed)
     rep.assumptions = list(ASSUME)
-    keys = KEYS_T if tier == "thorough" else KEYS_Q
     cells, st = vlib.plan_cells(prop, tier)
+    # the groups/scalars are those the plan names (Strata.tla GroupsQ): one recorder per key
+    keys = [k for k in KEYS_T if any(c["key"] == k for c in cells)]
+    unknown = set(c["key"] for c in cells) - set(KEYS_T)
+    if unknown: raise vlib.ModelError("plan names unknown recorder keys %s" % sorted(unknown))
     rep.states += st[0]; rep.transitions += st[1]
     if subsample and tier == "quick":
         # deterministic sub-sample of the enumerated cells (the full product runs in the thorough tier)
